@@ -1987,3 +1987,9 @@ mod tests {
         fsl_values_row_number(-1, 0).unwrap_err();
     }
 }
+
+// Verification hook (inactive unless compiled by the Kani verifier): pulls the
+// proof harnesses for this module in from the directory named by
+// DATAFUSION_VERIF_DIR so that they can reach private items.
+#[cfg(kani)]
+include!(concat!(env!("DATAFUSION_VERIF_DIR"), "/kani/common/utils.rs"));
